@@ -4,6 +4,7 @@ import ast
 from ..core import AnalysisError, src, body_walk, walk_no_nested, chain
 from ..cfg import CFG, Flow
 from ..locks import held, holds
+from .. import sem as _sem_mod
 
 POL = 'cassandra/policies.py'
 EVENTS = ('on_up', 'on_down', 'on_add', 'on_remove')
@@ -57,6 +58,8 @@ def check(chk):
         c = pol.cls(cls)
         muts = [n for n in ast.walk(c) if isinstance(n, ast.Call) and isinstance(n.func, ast.Attribute) and n.func.attr in ('add', 'remove', 'discard', 'append', 'extend', 'insert', 'pop')
                 and (src(n.func.value) == 'self.%s' % attr or src(n.func.value).startswith('self.%s[' % attr))]
+        # removing a whole datacenter entry from the dict under the lock (`del d[dc]` / `d.pop(dc, ...)`) is the policy's own idiom: plans read a copy of the keys
+        muts = [n for n in muts if not (attr == '_dc_live_hosts' and n.func.attr == 'pop' and src(n.func.value) == 'self._dc_live_hosts' and holds(n, ('self',), '_hosts_lock'))]
         chk.judge(not muts, 'C21.effect', c, '%s.%s is only replaced, never mutated in place' % (cls, attr),
                   'in-place mutation %s while plans iterate the collection without the lock' % [src(m)[:40] for m in muts])
     rr = pol.func('RoundRobinPolicy.make_query_plan')
@@ -125,6 +128,12 @@ def check(chk):
                 from ..core import enclosing
                 st = enclosing(n, (ast.stmt,))
                 infer = isinstance(st, ast.If) and 'not self.local_dc' in src(st.test) or (isinstance(st, ast.Assign) and src(st.targets[0]) == 'self.local_dc')
+                if not infer:
+                    # where the path knows the datacenter is set, host.datacenter and _dc(host) are the same value
+                    from .. import sem as _sem
+                    g_, fl_ = _sem.flow_of(f)
+                    nd = _sem.node_of(g_, n)
+                    infer = nd is not None and _sem.knows_all(fl_, nd, src(n))
                 chk.judge(bool(infer), 'C21.dc', n, '%s reads %s only to infer local_dc' % (q, src(n)),
                           '%s uses the raw %s where every other place uses _dc(host): a host whose datacenter is still unknown is filed / planned as local '
                           'but measured or looked up under None' % (q, src(n)))
@@ -201,6 +210,27 @@ def check(chk):
                     ok = ok and k is True and src(n.ast.value) == 'self._child_policy.distance(host)'
     chk.judge(ok, 'C21.filter', hd, 'HostFilterPolicy.distance: IGNORED iff not predicate, else the child\'s distance', 'filter distance inconsistent with its plan')
 
+    # _dc(host) depends on self.local_dc: when local_dc is inferred later, the hosts filed under the old (unset) value move with it
+    chk.rule('C21.infer', 'DC-aware: an assignment to self.local_dc outside __init__ is preceded, under _hosts_lock, by moving the bucket filed under the old value to the new key')
+    n_inf = 0
+    for q, f in pol.functions():
+        if not q.startswith('DCAwareRoundRobinPolicy.') or q.endswith('.__init__'):
+            continue
+        for st in body_walk(f):
+            if isinstance(st, ast.Assign) and any(src(t) == 'self.local_dc' for t in st.targets):
+                n_inf += 1
+                g_, fl_ = _sem_mod.flow_of(f)
+                nd = _sem_mod.node_of(g_, st)
+                removes = [n for n in g_.stmt_nodes() if n.kind == 'stmt' and g_.dominates(n, nd) and holds(n.ast, ('self',), '_hosts_lock') and (
+                    (isinstance(n.ast, ast.Delete) and any(src(t) == 'self._dc_live_hosts[self.local_dc]' for t in n.ast.targets)) or
+                    any(isinstance(c, ast.Call) and src(c.func) == 'self._dc_live_hosts.pop' and c.args and src(c.args[0]) == 'self.local_dc' for c in ast.walk(n.ast)))]
+                refiles = [n for n in g_.stmt_nodes() if n.kind == 'stmt' and isinstance(n.ast, ast.Assign) and src(n.ast.targets[0]).startswith('self._dc_live_hosts[') and
+                           src(n.ast.targets[0]) == 'self._dc_live_hosts[%s]' % src(st.value) and holds(n.ast, ('self',), '_hosts_lock') and n.ast.lineno < st.lineno]
+                chk.judge(bool(removes) and bool(refiles), 'C21.infer', st, '%s: %s after the bucket of the old value was moved to %s' % (q, src(st), src(st.value)),
+                          'local_dc changes but the hosts filed under the old value stay there: a second contact point whose datacenter is still unknown is looked up under the new '
+                          'local_dc by on_down (not found), re-added by on_up and then appears twice in plans (once as local, once as "remote" of the unset datacenter)')
+    if n_inf < 1:
+        raise AnalysisError('C21.infer: the local_dc inference was not found')
     # a datacenter / rack change reaches the policies as down(old location) -> relocate -> up(new location)
     chk.rule('C21.relocate', 'the control connection brackets set_location_info with profile_manager.on_down / on_up, in that order, so that policies file the host under its old datacenter when removing it')
     chk.borrow('C42', {'C42.location': 'C21.relocate', 'C42.live': 'C21.relocate'}, 'the policy searches the new datacenter for the host, removes nothing and adds it a second time: duplicate / misplaced hosts in plans')
